@@ -513,8 +513,12 @@ class Program:
             if b.j.get("impl_trait"):
                 continue
             cs = sites.get(name, [])
-            if len(cs) == 1 and cs[0] != name:
+            if name in cs:
+                continue          # recursive
+            if len(cs) == 1:
                 out[name] = cs[0]
+            elif len(cs) > 1:
+                out[name] = None   # several callers: inlined at each call site by the path reader, no single home
         self._auto_inline = out
         return out
 
@@ -531,7 +535,7 @@ class Program:
                 name = b.j.get("root", name)
                 continue
             ai = self.auto_inline()
-            if name in ai:
+            if ai.get(name):
                 name = ai[name]
                 continue
             return name
